@@ -6,6 +6,7 @@ import (
 	"errors"
 	"fmt"
 	"os"
+	"reflect"
 	"strings"
 	"testing"
 
@@ -134,6 +135,7 @@ type hsub struct {
 	log        *[]int
 	shared     *conn  // the connection (Subscriber object) the subscription was made by
 	marker     string // the response key that says a message is for this subscription
+	lastRound  int    // (shared connections) the publish that last brought this subscription a message
 }
 
 // conn is one client connection that holds several subscriptions: ONE Subscriber object behind all
@@ -143,6 +145,10 @@ type conn struct {
 	subs     []*hsub
 	cleanups int
 	stray    int
+	// a message for a null event has no marker: it is taken to be for the first subscription of
+	// the connection that is still registered (isLive) and has had no message in this publish (round)
+	isLive func(*hsub) bool
+	round  *int
 }
 
 func (c *conn) Match(eventID string) bool { return c.subs[0].Match(eventID) }
@@ -153,6 +159,15 @@ func (c *conn) Send(v interface{}) error {
 	if m, ok := v.(map[string]interface{}); ok {
 		for _, h := range c.subs {
 			if _, has := m[h.marker]; has && h.marker != "" {
+				h.lastRound = *c.round
+				return h.Send(v)
+			}
+		}
+	}
+	if v == nil && c.isLive != nil {
+		for _, h := range c.subs {
+			if c.isLive(h) && h.lastRound != *c.round {
+				h.lastRound = *c.round
 				return h.Send(v)
 			}
 		}
@@ -217,6 +232,9 @@ type Op struct {
 	// Events (non-nil): the published event is a list of these nodes (-1: a null member), meant for
 	// the subscribers of the list typed field batch
 	Events []int `json:"events,omitempty"`
+	// Nil (publish): the published event is null - 1: an untyped nil, 2: a nil pointer of the type
+	// the events have. Each matching subscriber gets its message, with null for the event.
+	Nil int `json:"nil_event,omitempty"`
 	// ReuseOf > 0: this subscription request is not parsed afresh, the parsed request of the
 	// ReuseOf-th subscribe step (1-based) is resolved again (same selection, same id)
 	ReuseOf int `json:"reuse_of,omitempty"`
@@ -400,8 +418,12 @@ func genCaseC19(rt *rapid.T) *c19Case {
 				c.Ops = append(c.Ops, op)
 				continue
 			}
-			c.Ops = append(c.Ops, Op{Kind: kind, ID: rapid.SampledFrom(idPool).Draw(rt, lab+"eventID"),
-				Event: rapid.SampledFrom(eventNodes).Draw(rt, lab+"event")})
+			pub := Op{Kind: kind, ID: rapid.SampledFrom(idPool).Draw(rt, lab+"eventID"),
+				Event: rapid.SampledFrom(eventNodes).Draw(rt, lab+"event")}
+			if rapid.IntRange(0, 7).Draw(rt, lab+"nullEvent") == 0 {
+				pub.Nil = rapid.IntRange(1, 2).Draw(rt, lab+"nullEventKind")
+			}
+			c.Ops = append(c.Ops, pub)
 		default:
 			pool := append(append([]string{}, idPool...), batchPool...)
 			if c.Abstract {
@@ -438,6 +460,7 @@ func runHistory(cc *c19Case) (ds []hx.Discrepancy, traits map[string]bool, hist 
 	var (
 		all      []*hsub
 		live     []*hsub
+		round    int
 		order    []int
 		pending  *hsub
 		hookHits int
@@ -540,7 +563,7 @@ func runHistory(cc *c19Case) (ds []hx.Discrepancy, traits map[string]bool, hist 
 				}
 			}
 			if h.shared == nil {
-				h.shared = &conn{subs: []*hsub{h}}
+				h.shared = &conn{subs: []*hsub{h}, round: &round, isLive: func(x *hsub) bool { return contains(live, x) }}
 			}
 			for _, k := range op.FailAt {
 				h.failAt[k] = true
@@ -635,6 +658,7 @@ func runHistory(cc *c19Case) (ds []hx.Discrepancy, traits map[string]bool, hist 
 				prevMsgs[h] = len(h.msgs)
 			}
 			order = order[:0]
+			round++
 			var eventValue interface{} = nil
 			if op.Events != nil {
 				members := make([]interface{}, len(op.Events))
@@ -647,6 +671,14 @@ func runHistory(cc *c19Case) (ds []hx.Discrepancy, traits map[string]bool, hist 
 				traits["event-that-is-a-list"] = true
 			} else {
 				eventValue = w.NodeValue(evID)
+				if op.Nil > 0 {
+					traits["event-that-is-null"] = true
+					if rv := reflect.ValueOf(eventValue); op.Nil == 2 && rv.Kind() == reflect.Ptr {
+						eventValue = reflect.Zero(rv.Type()).Interface()
+					} else {
+						eventValue = nil
+					}
+				}
 			}
 			cnt, err := w.Root.AddEvent(id, eventValue)
 			hist = append(hist, fmt.Sprintf("publish id=%q event=node%d members=%v -> count %d err %v (model: %d matching)", id, evID, op.Events, cnt, err != nil, len(matching)))
@@ -681,6 +713,8 @@ func runHistory(cc *c19Case) (ds []hx.Discrepancy, traits map[string]bool, hist 
 						}
 					}
 					want = l
+				} else if op.Nil > 0 {
+					want = nil
 				} else {
 					x := &hx.Exec{S: c.Schema, G: c.Graph, D: &hx.Doc{Frags: h.frags}, Faults: cc.Faults}
 					exp := x.RunSelection(c.Graph.Nodes[evID], h.sels, nil)
